@@ -342,8 +342,9 @@ class AirTouchSocket(Generic[comms.Hdr]):
     async def _disconnect(self) -> None:
         _LOGGER.debug("_disconnect: is_connected=%s", self.is_connected)
 
-        if self._writer:
-            self._writer.close()
+        while self._writer:
+            writer = self._writer
+            writer.close()
             # wait_closed could raise an error if the socket has been closed by
             # the other side. This will already have been logged, so just
             # suppress it here.
@@ -352,7 +353,12 @@ class AirTouchSocket(Generic[comms.Hdr]):
             # doesn't cancel it for the others (e.g. close() cancelling a
             # reset that is in progress).
             with contextlib.suppress(OSError):
-                await asyncio.shield(self._writer.wait_closed())
+                await asyncio.shield(writer.wait_closed())
+            if self._writer is writer:
+                break
+            # Another task re-connected while this one was waiting. That
+            # connection is discarded below, so close it as well instead of
+            # abandoning it.
 
         self.is_connected = False
         self._reader = None
